@@ -7,9 +7,9 @@
     Both are functions of the same node forest and of shared oracles with no assumed behaviour.
 
     FULL STATEMENT (all forests, all oracles):  strict_blocks F = false -> prom_accepts F = true.
-    It is FALSE of the faithful models and of the real pint/Prometheus pair: one machine-checked refutation is left, with a
-    witness file that the real pint (HEAD 4a0d172) passes and the real rulefmt.Parse refuses: known finding
-    C01-merge-not-alias (`<<` of a non-alias).
+    It is FALSE of the faithful models and of the real pint/Prometheus pair: two machine-checked refutations, each with a
+    witness file that the real pint (HEAD 346020d) passes and the real rulefmt.Parse refuses: known findings
+    C01-merge-not-alias (`<<` of a non-alias) and C01-group-label-key-alias (a group label key given as a yaml alias).
     Eight further classes were repaired in pint — null record/alert/expr (d65cbbf), group without a name (cc77cdd), limit
     that is no Go int (a6b0afc), scalar tagged !!null with text (b9483ac), group `labels: *anchor` (17469da), two `<<` keys in
     one mapping (e113542), explicit tag contradicting the kind (b22de24 at the group/rules/rule sites, 4a0d172 on rule values
@@ -18,15 +18,19 @@
     The guards / hypotheses these repairs made unnecessary are gone from the main theorem: "record/alert/expr not null",
     "group has a name or rules", H_int, and — since the pint model contains the strict pre-pass b9483ac with the shared
     oracle null_ok — H_null and the guard clause "null-tagged scalars spell a null" (Proofs/C01_full.v: the loader model only
-    asks its null oracle about nodes reachable from the document, on those the pre-pass established the answer).
+    asks its null oracle about nodes reachable from the document, on those the pre-pass established the answer), the
+    "tag matches kind" clauses of the guard (kind_mismatch), and "group-level values are not aliases" (17469da).
 
     PROVED (C01_sound_guarded, the main theorem), for every stream of documents and every oracle instance satisfying
       H_tmpl   pint's template check (ParseTest + Expand) is at least as strict as Prometheus' (ParseTest),
       H_str    a non-null scalar decodes into a Go string     (excludes explicit tags that do not resolve, bad !!binary),
       H_empty  the empty string is not a label name, is a label value and is a valid template,
     and every single document satisfying [guards_doc] — the documented fragment:
-      - one root; below it only mappings tagged !!map, sequences tagged !!seq and scalars with a scalar tag other
-        than !!merge: no explicit collection tags, no null-tagged mapping keys;
+      - one root; below it mappings, sequences and scalars as yaml.v3 builds them (collections without a value, scalars
+        without content, mapping content in key/value pairs), no node tagged !!merge outside the one merge key below, no
+        null-tagged mapping keys.  TAGS ARE OTHERWISE FREE: that a node's tag fits its kind where it matters is no longer a
+        premise, pint enforces it itself (kind_mismatch at the nine sites of b22de24 / 4a0d172) and the proofs take the kinds
+        from those checks;
       - a rule may carry ONE MERGE KEY `<<: *anchor` ([merge_rule_guard]): the anchor is a plain alias-free mapping with distinct,
         non-empty keys other than "<<"; pint splices the pairs the rule does not set itself, Prometheus merges after the explicit
         keys — the same fields as a permutation ([rule_sound_merge]).  Merge keys elsewhere, several merge keys, and `<<` of a
@@ -247,6 +251,16 @@ Definition w_null_tagged_mapping : node :=
 Theorem C01_fixed_witnesses_blocked_tag_kind : now_blocked w_tag_kind_rule_labels /\ now_blocked w_null_tagged_mapping.
 Proof. vm_compute. repeat split. Qed.
 Print Assumptions C01_fixed_witnesses_blocked_tag_kind.
+(** A second open class (found after 17469da): a group label KEY that is an alias — parseGroup validates the text of the alias
+    node (the anchor name "n"), Prometheus the key it resolves to (`__name__`).  corpus/C01/group_label_key_alias.yaml. *)
+Definition w_label_key_alias : node :=
+  Dc 1 1 388 [Mp "!!map" 1 1 388 [Sc "!!str" "groups" 1 1 439; Sq "!!seq" 2 1 388 [Mp "!!map" 2 3 388
+    [Sc "!!str" "name" 2 3 439; Sc "!!str" "__name__" 2 9 65975; Sc "!!str" "labels" 3 3 439;
+     Mp "!!map" 4 5 388 [Node KAlias "!!str" "n" 4 5 407 [] (Some (Sc "!!str" "__name__" 2 9 65975)) None; Sc "!!str" "foo" 4 10 439];
+     Sc "!!str" "rules" 5 3 439; Sq "!!seq" 5 10 388 []]]]].
+Theorem C01_sound_refuted_group_label_key_alias : refutes w_label_key_alias.
+Proof. vm_compute. repeat split. Qed.
+Print Assumptions C01_sound_refuted_group_label_key_alias.
 Theorem C01_sound_refuted_merge_not_alias : refutes w_merge.
 Proof. vm_compute. repeat split. Qed.
 Print Assumptions C01_sound_refuted_merge_not_alias.
